@@ -647,6 +647,7 @@ func c19Run(ctx *core.Ctx) *core.Result {
 	if c19Concurrent != nil {
 		c19Concurrent(ctx, total)
 	}
+	c19Orphan(ctx, total)
 	return total
 }
 
@@ -658,7 +659,7 @@ func init() {
 		Run: c19Run,
 		Meta: func(tier string) core.Meta {
 			return core.Meta{ID: "C19", Level: "model_checking",
-				Rule: "explicit-state BFS over histories of the real bin/newpolicy.sh in a sandbox (own HOME, bare git remote, committer clone, stub 'netspoc' that writes code in separately killable steps and a marker last, stub 'mail', real get-netspoc-approve-conf, real git/flock); the script runs unmodified under BASH_ENV (set -T; trap DEBUG): events = good commit, bad commit with / without author e-mail, two bad commits, further refs named */master (branches sorting before and behind refs/heads/master, a tag) created at the tip, undisturbed run, run killed (SIGKILL to the process group) before step k for every k of the run's simple commands; states = directory trees canonicalised (policy numbers and data versions by rank); invariants after every event: 'current' absent or a symlink to an existing, completely compiled policy of a compiling revision whose code matches its source; every new pN greater than all numbers seen; a non-compiling head never changes 'current'; and from every reached state one undisturbed run must succeed and make the newest compiling revision current, also when one more good commit arrives before that run; concurrency: a second newpolicy.sh is run to completion while the first is paused at each step (must exit 1 exactly when the first holds the lock), then the first is resumed; likewise a good commit is pushed while the run is paused before step k (its own push may then be rejected), then the run resumes and one more run must catch up; every transition is a run of the real script (traces_validated = transitions)",
+				Rule: "explicit-state BFS over histories of the real bin/newpolicy.sh in a sandbox (own HOME, bare git remote, committer clone, stub 'netspoc' that writes code in separately killable steps and a marker last, stub 'mail', real get-netspoc-approve-conf, real git/flock); the script runs unmodified under BASH_ENV (set -T; trap DEBUG): events = good commit, bad commit with / without author e-mail, two bad commits, further refs named */master (branches sorting before and behind refs/heads/master, a tag) created at the tip, undisturbed run, run killed (SIGKILL to the process group) before step k for every k of the run's simple commands; states = directory trees canonicalised (policy numbers and data versions by rank); invariants after every event: 'current' absent or a symlink to an existing, completely compiled policy of a compiling revision whose code matches its source; every new pN greater than all numbers seen; a non-compiling head never changes 'current'; and from every reached state one undisturbed run must succeed and make the newest compiling revision current, also when one more good commit arrives before that run; concurrency: a second newpolicy.sh is run to completion while the first is paused at each step (must exit 1 exactly when the first holds the lock), then the first is resumed; likewise a good commit is pushed while the run is paused before step k (its own push may then be rejected), then the run resumes and one more run must catch up; kill of the script alone: the compiler stub kills its parent shell while it compiles and lives on (before its first and before its last write); a good commit and a second invocation follow while it is alive (must be refused: the lock is inherited by the compiler), then the old compile ends and one more run must catch up; every transition is a run of the real script (traces_validated = transitions)",
 				Assumptions: []string{"kills inside git/mv/ln themselves (single system calls, git's own crash safety) and the real Netspoc compiler are outside", "sudo wrapper not exercised (no sudo in the sandbox)"},
 				Bounds:      map[string]any{"quick": "depth 2 from 3 initial states", "thorough": "depth 3"},
 			}
